@@ -858,6 +858,7 @@ def oracle(ctx, scale=1):
     # run -> in-place extension of the SAME Model object -> run (whatever the first run cached about the graph must be forgotten)
     from props import c02_probes
     out += c02_probes.judge_inplace_after_run("%d" % ctx.seed)
+    out += c02_probes.judge_oneshot_return_states("%d" % ctx.seed)
     return {"evaluations": n + 2 + len(mscs) + 8, "violations": out,
             "rule": "Model.run(return_states='all') vs explicit evaluation of each real node after its predecessors; result form; nodes with a non-default dtype; "
                     "to_data_mapping / unfold_mapping / fold_mapping / Model.run over 1-3 sequences decided directly (keys, sequence counts, values, per-sequence runs); "
@@ -865,6 +866,10 @@ def oracle(ctx, scale=1):
 
 
 def replay(payload):
+    if (payload.get("scenario") or {}).get("kind") == "oneshot-return-states":
+        from props import c02_probes
+        vs = c02_probes.judge_oneshot_return_states("rp")
+        return {"violates": bool(vs), "detail": vs[:1]}
     if (payload.get("scenario") or {}).get("kind") == "inplace-after-run":
         from props import c02_probes
         vs = c02_probes.judge_inplace_after_run("rp")
